@@ -12,6 +12,7 @@
 From Coq Require Import List ZArith Bool Arith.
 From Coq Require Import Lia.
 From PV Require Import C06.Model C06.Spec C06.Proofs C06.ProofsArpa.
+From PV Require Import C06.BuildClosure C06.BuildTrie C06.BuildEnd.
 Import ListNotations.
 Local Open Scope Z_scope.
 
@@ -154,6 +155,82 @@ Theorem c06_arpa_listed_entries : forall wf pre post secs ls,
 Proof. exact parse_wellformed. Qed.
 Print Assumptions c06_arpa_listed_entries.
 
+(* ---------- _build_trie meets the layout invariant, for ALL tables ---------------------------------- *)
+
+(* [wf_dicts V s dicts] (BuildTrie.v) is the boolean reading of what the Python constructor
+   requires of prob_dicts (it raises ValueError otherwise): vocab_size >= 1, at least one
+   dictionary, the highest-order one not empty, every key of the i-th dictionary a sequence of i
+   tokens each in range(vocab_size) or equal to sos -- plus "no key listed twice", which a Python
+   dict guarantees by construction.  Nothing is assumed about sparsity (lower-order suffixes may be
+   missing, lower dictionaries may be empty), about sos (inside or outside the vocabulary) or about
+   the values (any Fin k / NInf / NaN).  [table_of dicts] = all the caller's entries;
+   [built_shape V s bt] = the constants (N, G, max_direct_descendants) the model returns.
+
+   "the buffers returned by build_trie represent the caller's table": every listed n-gram has a node
+   carrying its two numbers, every other node the descent can reach (the suffixes / unigrams the
+   builder adds) carries (-inf, 0).  This replaces the per-table run of the validator as the
+   justification of the premise of the lookup theorems above. *)
+Theorem c06_build_trie_ok : forall V s dicts bt,
+  wf_dicts V s dicts = true -> build_trie V s dicts = Some bt ->
+  TrieOK (bt_bufs bt) (built_shape V s bt) (tmap (built_shape V s bt) (table_of dicts)).
+Proof. exact build_trie_ok. Qed.
+Print Assumptions c06_build_trie_ok.
+
+(* end to end, one batch element and one window of N-1 tokens (vocabulary ids or sos): build, rename
+   the window as the lookup does, descend = the recursion on the caller's table *)
+Theorem c06_build_then_lookup_is_katz : forall V s dicts bt w v hidx,
+  wf_dicts V s dicts = true -> build_trie V s dicts = Some bt ->
+  (length w = length dicts - 1)%nat -> (1 <= length w)%nat ->
+  Forall (tok_ok V s) w -> 0 <= v < V -> Z.of_nat (length w) <= hidx ->
+  lookup1 (bt_bufs bt) (built_shape V s bt) hidx (mapwin (built_shape V s bt) w) v =
+  katz (table_of dicts) w v.
+Proof. exact build_then_lookup. Qed.
+Print Assumptions c06_build_then_lookup_is_katz.
+
+(* the same for the batch entry points: one index, per-element indices, all positions in chunks of
+   any size, __call__ without and with an index (negative ones included) *)
+Theorem c06_build_then_one_index_is_katz : forall V s dicts bt hist B i,
+  wf_dicts V s dicts = true -> build_trie V s dicts = Some bt ->
+  hist_ok (built_shape V s bt) hist B -> (i <= length hist)%nat ->
+  lookup_batch (bt_bufs bt) (built_shape V s bt) hist B (Scalar (Z.of_nat i)) =
+  Some (spec_at (table_of dicts) (length dicts) V s hist B (repeat i B)).
+Proof. exact build_then_index. Qed.
+Print Assumptions c06_build_then_one_index_is_katz.
+
+Theorem c06_build_then_per_element_index_is_katz : forall V s dicts bt hist B l,
+  wf_dicts V s dicts = true -> build_trie V s dicts = Some bt ->
+  hist_ok (built_shape V s bt) hist B -> length l = B -> (2 <= B)%nat ->
+  Forall (fun i => (i <= length hist)%nat) l ->
+  lookup_batch (bt_bufs bt) (built_shape V s bt) hist B (Vec (map Z.of_nat l)) =
+  Some (spec_at (table_of dicts) (length dicts) V s hist B l).
+Proof. exact build_then_index_vector. Qed.
+Print Assumptions c06_build_then_per_element_index_is_katz.
+
+Theorem c06_build_then_full_is_katz_any_chunk : forall V s dicts bt hist B chunk,
+  wf_dicts V s dicts = true -> build_trie V s dicts = Some bt ->
+  hist_ok (built_shape V s bt) hist B -> (1 <= chunk)%nat ->
+  chunked (bt_bufs bt) (built_shape V s bt) hist B chunk =
+  Some (spec_full (table_of dicts) (length dicts) V s hist B).
+Proof. exact build_then_chunked. Qed.
+Print Assumptions c06_build_then_full_is_katz_any_chunk.
+
+Theorem c06_build_then_call_full_is_katz : forall V s dicts bt hist B,
+  wf_dicts V s dicts = true -> build_trie V s dicts = Some bt ->
+  hist_ok (built_shape V s bt) hist B ->
+  forward (bt_bufs bt) (built_shape V s bt) hist B None =
+  Some (Full (spec_full (table_of dicts) (length dicts) V s hist B)).
+Proof. exact build_then_forward_full. Qed.
+Print Assumptions c06_build_then_call_full_is_katz.
+
+Theorem c06_build_then_call_with_index_is_katz : forall V s dicts bt hist B i,
+  wf_dicts V s dicts = true -> build_trie V s dicts = Some bt ->
+  hist_ok (built_shape V s bt) hist B -> - zlen hist - 1 <= i <= zlen hist ->
+  forward (bt_bufs bt) (built_shape V s bt) hist B (Some (Scalar i)) =
+  Some (AtIdx (spec_at (table_of dicts) (length dicts) V s hist B
+                 (repeat (Z.to_nat ((i + zlen hist + 1) mod (zlen hist + 1))) B))).
+Proof. exact build_then_forward_index. Qed.
+Print Assumptions c06_build_then_call_with_index_is_katz.
+
 (* ---------- non-vacuity ---------------------------------------------------------------------------- *)
 
 (* an order-3 table with missing suffixes and an out-of-vocabulary start symbol, and the
@@ -197,3 +274,15 @@ Proof.
   - split; [repeat constructor; intros; lia|]. repeat constructor; cbn; intuition discriminate.
   - split; [repeat constructor; intros; reflexivity|]. repeat constructor; cbn; intuition discriminate.
 Qed.
+
+(* the order-3 table of c06_nonvacuous (missing suffixes, empty-able lower orders, sos out of
+   vocabulary) and an order-2 table whose unigram dictionary is EMPTY are well-formed, and
+   build_trie succeeds on them *)
+Example c06_build_nonvacuous :
+  wf_dicts 3 5
+     [[([0], (Fin (-8), Fin (-4))); ([1], (Fin (-16), Fin (-2)))];
+      [([0; 1], (Fin (-4), Fin (-1))); ([1; 1], (Fin (-6), Fin 0))];
+      [([2; 0; 1], (Fin (-2), Fin 0)); ([0; 1; 1], (Fin (-12), Fin 0)); ([1; 2; 0], (Fin (-24), Fin 0))]] = true /\
+  wf_dicts 2 0 [[]; [([1; 0], (NInf, Fin 0)); ([0; 0], (Fin (-3), NaN))]] = true /\
+  option_map bt_order (build_trie 2 0 [[]; [([1; 0], (NInf, Fin 0)); ([0; 0], (Fin (-3), NaN))]]) = Some 2%nat.
+Proof. split; [vm_compute; reflexivity|]. split; vm_compute; reflexivity. Qed.
